@@ -239,8 +239,49 @@ def method_oracle(ctx):
                 ctx.violation('bulk delete did not remove exactly the selected rows', {'before': before}, observed=left, expected=exp, key='bulk-delete')
         db.disconnect()
 
+def aggr_tie(ctx):
+    """hand model of the aggregates (Model/Aggr.lean) against real Pony on SQLite: nullable int column, every flag"""
+    if not ctx.driver.ok:
+        ctx.note('driver unavailable: aggregate tie skipped'); return
+    rng = ctx.rng
+    cols = [[], [None], [None, None], [0], [3, 3], [3, None, 3, 5], [-1, 0, 1, None, -1]]
+    for _ in range(ctx.scale(25, 250)):
+        cols.append([rng.choice([None, None, -3, 0, 1, 2, 2, 7, 10**12]) for _ in range(rng.choice([1, 2, 3, 5, 8, 13]))])
+    reqs, reals = [], []
+    for col in cols:
+        db = Database()
+        class V(db.Entity):
+            v = Optional(int, size=64)
+        db.bind('sqlite', ':memory:'); db.generate_mapping(create_tables=True)
+        with db_session:
+            for x in col: V(v=x)
+        with db_session:
+            q = lambda: select(x.v for x in V if x.v is not None)   # Pony's aggregates skip missing values like SQL
+            qa = lambda: select(x.v for x in V)
+            real = {'count_none': qa().count(), 'count_false': qa().count(distinct=False), 'count_true': qa().count(distinct=True),
+                    'sum': qa().sum(), 'sum_distinct': qa().sum(distinct=True), 'min': qa().min(), 'max': qa().max(),
+                    'distinct': sorted(q().distinct()[:])}
+        db.disconnect()
+        reqs.append({'op': 'aggr', 'col': col}); reals.append(real)
+    outs = ctx.driver('C24', reqs)
+    for col, real, out in zip(cols, reals, outs):
+        ctx.case(['aggr', col], kind='aggregate-tie')
+        if 'driver_error' in out:
+            ctx.divergence('driver error in aggregate model', col, model=out, impl=real); continue
+        out = dict(out, distinct=sorted(out['distinct']))
+        if out != real:
+            ctx.divergence('aggregate model (Model/Aggr.lean) and real Pony on SQLite disagree', col, model=out, impl=real)
+            # the property oracle for the same input: Python on the column
+            nn = [x for x in col if x is not None]
+            exp = {'count_none': len(set(nn)), 'count_false': len(nn), 'count_true': len(set(nn)), 'sum': sum(nn), 'sum_distinct': sum(set(nn)),
+                   'min': min(nn) if nn else None, 'max': max(nn) if nn else None, 'distinct': sorted(set(nn))}
+            if real != exp:
+                ctx.violation('aggregate over a nullable column differs from the Python operation on the column', {'column': col},
+                              observed=real, expected=exp, key='aggr:%r' % (sorted(k for k in exp if exp[k] != real[k]),))
+
 def run(ctx):
     translator_tie(ctx)
+    aggr_tie(ctx)
     method_oracle(ctx)
 
 def replay(ctx, data):
